@@ -205,6 +205,11 @@ def check_trace(tr, drv, max_frames=80, mask=None):
     if res['wfx_init'] != '1':
         res['mismatch'] = {'frame': 0, 'what': 'the initial snapshot does not satisfy the invariant WFx [] of the T2 theorems', 'got': res['wfx_init']}
         return res
+    v1 = drv.ask('m35', sx.dump([ecfg, enc_state(prev, cfg, nxt, now if isinstance(now, int) else 0)]))
+    res['cap_init'] = (v1[1].strip() if v1[0] == 'M' else str(v1))
+    if res['cap_init'] != '1':
+        res['mismatch'] = {'frame': 0, 'what': 'the initial snapshot does not satisfy the capacity hypotheses (J, Sysq) of the T2 theorem engine_capacity', 'got': res['cap_init']}
+        return res
     for k, f in enumerate(tr.frames[:max_frames]):
         crossed = False
         while ci < len(ends) and ends[ci]['frames'] == k:
